@@ -908,6 +908,28 @@ def rule_topo(ctx):
                                 f"parent's position")
         bounded = any(v is True for v in verdicts)
         if bounded:
+            # the bound names the parent's position only while the position variable has not been
+            # advanced past an insertion that has not happened yet: in the block of the bisection
+            # the order is  bisect -> insert(s) -> position += 1
+            st = C.enclosing_stmt(f, c)
+            par_ = f.module.parents.get(st)
+            blk = None
+            for fld in ("body", "orelse"):
+                b = getattr(par_, fld, None)
+                if isinstance(b, list) and any(x is st for x in b):
+                    blk = b
+            if blk is not None:
+                bi = [i for i, x in enumerate(blk) if x is st][0]
+                incs = [i for i, x in enumerate(blk) if isinstance(x, ast.AugAssign)
+                        and isinstance(x.target, ast.Name) and x.target.id in pos_names]
+                ins = [i for i, x in enumerate(blk) if any(
+                    isinstance(y, ast.Call) and isinstance(y.func, ast.Attribute) and y.func.attr == "insert"
+                    for y in ast.walk(x))]
+                if any(i < bi for i in incs) or (ins and incs and min(incs) < max(ins)):
+                    r.violation(key, C.loc(f, c), "the parent's position is advanced before the child is "
+                                "searched for / inserted: the bisection range then includes the parent's own "
+                                "slot and a child that scores at least as high as its parent lands after it")
+                    continue
             r.ok(key, C.loc(f, c), "insertion position bounded by the parent's position")
         else:
             r.violation(key, C.loc(f, c), f"`{C.unparse(c)}` searches the whole queue: a child that "
